@@ -102,6 +102,12 @@ ASSUME Items("cert_down", <<8, 1, 2, 3>>) = << <<1, 8, 4>> >> /\ Items("cert_dow
 ASSUME Items("mc_up", <<4, 16, 2, 1>>) = << <<1, 4, 2>>, <<1, 2, 2>> >>
        /\ ItemsFixedTTS("mc_up", <<4, 16, 2, 1>>) = << <<0, 1, 4>> >>
 
+\* disputed entry: exactly the two readings are accepted
+ASSUME ItemsAccepted("mc_up", <<4, 16, 2, 1>>, << <<1, 4, 2>>, <<1, 2, 2>> >>)
+       /\ ItemsAccepted("mc_up", <<4, 16, 2, 1>>, << <<0, 1, 4>> >>)
+       /\ ~ItemsAccepted("mc_up", <<4, 16, 2, 1>>, << <<1, 4, 3>>, <<0, 0, 1>> >>)
+       /\ ~ItemsAccepted("mc_down", <<4, 16, 2, 1>>, << <<1, 4, 2>>, <<1, 2, 2>> >>)
+
 \* --- derived values
 ASSUME MaxEirpDbm[1] = 8 /\ MaxEirpDbm[16] = 36 /\ Len(MaxEirpDbm) = 16
 ASSUME DutyCycleF32(0) = <<16256, 0>> /\ DutyCycleF32(1) = <<16128, 0>>      \* 1.0 = 0x3F800000, 0.5 = 0x3F000000
